@@ -1820,3 +1820,141 @@ func ruleBarInfixOnly(c *Ctx, r *Report) {
 	}
 	r.analysed(rule, fname(fn))
 }
+
+// ---------------------------------------------------------------------------
+// R-VALIDATE-WHOLE (C18; added after seed C18h): "never an infix and a postfix operator of the same name" is
+// decided by validateOp before anything is stored. A validation that walks over the existing definitions has to
+// look at all of them: no success return (a nil result) is taken from the middle of a loop - a `return nil`
+// where `continue` was meant accepts the new operator as soon as one compatible definition was seen (a name that
+// is already a prefix operator can then become infix AND postfix).
+func ruleValidateWhole(c *Ctx, r *Report) {
+	const rule = "R-VALIDATE-WHOLE"
+	desc := "the validation of an operator definition does not answer `fine` from inside a loop over the existing definitions"
+	fn := c.fn("validateOp")
+	if fn == nil {
+		r.undecided(rule, "anchor:validateOp", "-", desc, "not found")
+		return
+	}
+	// loop bodies
+	inLoop := map[*ssa.BasicBlock]bool{}
+	for _, h := range fn.Blocks {
+		back := false
+		for _, p := range h.Preds {
+			if h.Dominates(p) {
+				back = true
+			}
+		}
+		if !back {
+			continue
+		}
+		for _, b := range fn.Blocks {
+			if b != h && h.Dominates(b) && reachableFromAvoiding2(b, h) {
+				inLoop[b] = true
+			}
+		}
+	}
+	var bad ssa.Instruction
+	nret := 0
+	eachInstr(fn, func(in ssa.Instruction) {
+		ret, ok := in.(*ssa.Return)
+		if !ok || len(ret.Results) == 0 {
+			return
+		}
+		success := false
+		for _, l := range c.originSet(ret.Results[len(ret.Results)-1]) {
+			if isNilConst(l) {
+				success = true
+			}
+		}
+		if !success {
+			return
+		}
+		nret++
+		for _, p := range in.Block().Preds {
+			if inLoop[p] {
+				bad = in
+			}
+		}
+		if inLoop[in.Block()] {
+			bad = in
+		}
+	})
+	key := fname(fn) + "/success-returns"
+	switch {
+	case nret == 0:
+		r.undecided(rule, key, c.Pos(fn.Pos()), desc, "no success return found")
+	case bad != nil:
+		r.bad(rule, key, c.at(bad), desc, "a success return is reached from inside a loop: the remaining definitions are not looked at, and a combination the table must never hold is accepted")
+	default:
+		r.ok(rule, key, c.Pos(fn.Pos()), desc, fmt.Sprintf("%d success return(s), none from inside a loop", nret), true)
+	}
+	r.analysed(rule, fname(fn))
+}
+
+// ---------------------------------------------------------------------------
+// R-COMPILE-BODY-SOURCE (C03, C10; added after seed C03h): "the compiled form of a clause denotes its source term
+// (same body goals in order)" and a cut in it is the cut the source has. The function that turns a clause term
+// into stored clauses hands the clause compiler only PARTS of that term: the head and body it passes to
+// compileClause come from Arg(...) of the clause term, from the alternatives iterator, from the term itself or are
+// nil - never from a term constructor. A body that compile builds itself ("(If -> Then) is call(If), !, Then")
+// puts a clause-level cut where the source has the local cut of ->/2: the predicate's remaining clauses are cut away.
+func ruleCompileBodySource(c *Ctx, r *Report) {
+	const rule = "R-COMPILE-BODY-SOURCE"
+	desc := "the clause compiler is handed parts of the source clause, not terms built on the way"
+	fn := c.fn("compile")
+	cc := c.fn("compileClause")
+	if fn == nil || cc == nil {
+		r.undecided(rule, "anchor:compile/compileClause", "-", desc, "not found")
+		return
+	}
+	n := 0
+	eachInstr(fn, func(in ssa.Instruction) {
+		call, ok := in.(*ssa.Call)
+		if !ok || call.Call.StaticCallee() != cc {
+			return
+		}
+		for ai, a := range call.Call.Args {
+			if !isEngNamed(a.Type(), "Term") {
+				continue
+			}
+			n++
+			key := fmt.Sprintf("%s/compileClause#%d.arg%d", fname(fn), (n+1)/2, ai)
+			bad := ""
+			for _, l := range c.originSet(a) {
+				switch x := l.(type) {
+				case *ssa.Parameter:
+				case *ssa.Const:
+					if !x.IsNil() {
+						bad = "a constant"
+					}
+				case *ssa.Call:
+					switch {
+					case x.Call.IsInvoke() && x.Call.Method.Name() == "Arg":
+					case x.Call.StaticCallee() != nil && x.Call.StaticCallee().Name() == "Current" && recvNamed(x.Call.StaticCallee()) == "altIterator":
+					case x.Call.StaticCallee() != nil && x.Call.StaticCallee().Name() == "Resolve" && recvNamed(x.Call.StaticCallee()) == "Env":
+					default:
+						bad = "the result of " + calleeName(x.Common())
+					}
+				case *ssa.Extract:
+					// comma-ok assertion of a part of the term
+					if ta, ok := x.Tuple.(*ssa.TypeAssert); ok {
+						_ = ta
+					} else {
+						bad = "a value of " + valName(l)
+					}
+				default:
+					bad = "a value of " + valName(l)
+				}
+			}
+			if bad == "" {
+				r.ok(rule, key, c.at(in), desc, "a part of the clause term (Arg, the alternatives iterator, the term itself) or nil", true)
+			} else {
+				r.bad(rule, key, c.at(in), desc, "the clause compiler is given "+bad+": a body assembled by compile itself does not denote the source (a cut put there cuts the predicate's other clauses, which the source's ->/2 never does)")
+			}
+		}
+	})
+	if n == 0 {
+		r.undecided(rule, fname(fn)+"/compileClause", c.Pos(fn.Pos()), desc, "no call of compileClause in compile")
+	}
+	r.analysed(rule, fname(fn))
+}
